@@ -278,6 +278,9 @@ var registry = map[string]maker{
 		b.SetLength(p.i("length", 64))
 		return b
 	},
+	"argreuse": func(d *driver.Driver, a arch.Type, p params) benchmarks.Benchmark {
+		return &argreuse{driver: d, context: d.Init(), Length: p.i("length", 512), Launches: p.i("launches", 4), ScalarMask: p.i("smask", 14)}
+	},
 	"overlapcopy": func(d *driver.Driver, a arch.Type, p params) benchmarks.Benchmark {
 		return &overlapcopy{driver: d, context: d.Init(), Length: p.i("length", 4096), Taps: p.i("taps", 32), Chunks: p.i("chunks", 8)}
 	},
